@@ -71,10 +71,10 @@ Proof.
 Qed.
 
 Lemma binit_all_qreach k : forall st, qreach (b_q st) -> qreach (b_q (binit_all st k)).
-Proof. induction k as [|j IH]; intros st Hr; simpl; [exact Hr|]. apply IH. apply bnorm_qreach. exact Hr. Qed.
+Proof. induction k as [|j IH]; intros st Hr; cbn [binit_all]; [exact Hr|]. apply IH. apply bnorm_qreach. exact Hr. Qed.
 
 Lemma binit_qreach scripts : qreach (b_q (binit scripts)).
-Proof. unfold binit. apply binit_all_qreach. simpl. constructor. Qed.
+Proof. unfold binit. apply binit_all_qreach. cbn [b_q]. constructor. Qed.
 
 (* every run of the E3 replay function ends (hence, by the same argument, passes only) in reachable lock states *)
 Theorem qb_run_qreach_thm scripts bound sched : qreach (b_q (fst (fst (qb_run scripts bound sched)))).
